@@ -33,6 +33,13 @@ def run(rep, prop):
         trans += r['transitions']
         if not r['closed'] and maxd is None:
             exhaustive = False
+    # five tasks: start states built directly (three or more levels, all in W0, <= 1 link), one step of the attach alphabet
+    st5 = bfs.seeded_states('U5', deep_only=True, in_wbs=(True,) if rep.tier == 'quick' else (True, False), max_links=1)
+    t5 = bfs.from_states('U5', st5, 'attach' if rep.tier == 'quick' else 'full', rep.acc)
+    per.append({'universe': 'U5', 'start_states_built_directly': len(st5), 'transitions': t5,
+                'alphabet': 'attach' if rep.tier == 'quick' else 'full'})
+    states += len(st5)
+    trans += t5
     # held-facade transitions (DESIGN section 0): U2 from every state; U3 from the states of depth <= 1 (quick) / all (thorough)
     held = 0
     for uname, maxd in (('U2', None), ('U3', 1 if rep.tier == 'quick' else None)):
